@@ -166,3 +166,12 @@ chk("C30", MC,
     "inputs of the latest response before update, outputs set in cycle k are in frame k+1, every working counter is zero in each "
     "re-sent frame, the error count grows by exactly one per datagram whose counter differs from the expected value.",
     PY_NOTE, "symbolic execution of the real cyclic coroutine on a deterministic event loop with symbolic bus data (z3)", "B:8/C30")
+
+chk("C25", MC,
+    "The real find_free_address/assigned_address/scan_serial_numbers/eeprom_read/count and Terminal.initialize run on the "
+    "deterministic event loop against a datagram-level bus of 1-2 (3) terminals; the pre-assigned address of every terminal and "
+    "the values returned by an adversarial randint stub (any terminal's address, any earlier value, range ends, other) are "
+    "engine decisions explored exhaustively; serial numbers symbolic. Obligations: assigned addresses lie in the range, are "
+    "pairwise distinct, never equal an address at which another terminal answers; pre-assigned addresses are kept. This check is "
+    "mostly exhaustive decision exploration (small symbolic part) -- stated in the evidence.",
+    PY_NOTE, "exhaustive exploration of adversarial random draws and bus configurations with the symbolic engine", "B:8/C25")
